@@ -278,6 +278,23 @@ CopyFaithful(o, cx, ev, res, o2, cx2) ==
                taken == \E t \in cx.truth[m] : t[1] = pp \o <<orig>> IN
            /\ TNameOf(o2, new) # <<>>
            /\ IF taken THEN \E q \in 1..9 : TNameOf(o2, new)[1] = SuffixNameP(orig, q) ELSE TNameOf(o2, new)[1] = orig
+\* "makes every copied identifiable element and reference findable in the destination model": every identifiable element of the
+\* copy is in the path index under its own path, and every reference of the copy is listed among the referrers of its text.
+\* For duplicate(): the same for the whole new model.
+CopyFindable(o, cx, ev, res, o2, cx2) ==
+  /\ (ev.op = "Copy" /\ res.t = "ok") =>
+        LET new == res.v
+            m == ModelOf(o2, cx2, new)
+            D == PSeqToSet(ODfs(o2, new)) IN
+        m # 0 =>
+          /\ \A x \in D : (TIdent(o2, x) /\ TNameOf(o2, x) # <<>>) =>
+                 \E j \in 1..Len(o2.models[m].idx) : o2.models[m].idx[j][2] = x /\ o2.models[m].idx[j][1] = TPath(o2, x)
+          /\ \A r \in D \cap TRefs(o2, cx2, m) : \E j \in 1..Len(RefoList(o2, m, TRefText(o2, r))) : RefoList(o2, m, TRefText(o2, r))[j] = r
+  /\ (ev.op = "Duplicate" /\ res.t = "ok" /\ res.v \in OModels(o2)) =>
+        LET d == res.v IN
+        /\ \A x \in cx2.reach[d] : (TIdent(o2, x) /\ TNameOf(o2, x) # <<>>) =>
+               \E j \in 1..Len(o2.models[d].idx) : o2.models[d].idx[j][2] = x /\ o2.models[d].idx[j][1] = TPath(o2, x)
+        /\ \A r \in TRefs(o2, cx2, d) : \E j \in 1..Len(RefoList(o2, d, TRefText(o2, r))) : RefoList(o2, d, TRefText(o2, r))[j] = r
 \* ... "and still validates": the destination's files re-load without any version complaint they did not have before
 VersionKinds == {"ElementVersionError", "AttributeVersionError", "EnumItemVersionError"}
 CopyStillValidates(o, cx, ev, res, o2, cx2) ==
@@ -337,7 +354,7 @@ ActionPropsCx(o, cx, ev, res, o2, cx2) ==
    StaleCallsFail |-> StaleCallsFail(o, cx, ev, res, o2),
    RefsFollow |-> RefsFollow(o, cx, ev, res, o2, cx2),
    RemoveFileExact |-> RemoveFileExact(o, cx, ev, res, o2, cx2),
-   CopyFaithful |-> CopyFaithful(o, cx, ev, res, o2, cx2), CopyStillValidates |-> CopyStillValidates(o, cx, ev, res, o2, cx2),
+   CopyFaithful |-> CopyFaithful(o, cx, ev, res, o2, cx2), CopyFindable |-> CopyFindable(o, cx, ev, res, o2, cx2), CopyStillValidates |-> CopyStillValidates(o, cx, ev, res, o2, cx2),
    CopySourceUnchanged |-> CopySourceUnchanged(o, cx, ev, res, o2, cx2), EditsStayValid |-> EditsStayValid(o, cx, ev, res, o2, cx2),
    ModelsIndependent |-> ModelsIndependent(o, cx, ev, res, o2, cx2), DuplicateSameText |-> DuplicateSameText(o, cx, ev, res, o2, cx2)]
 ActionProps(o, ev, res, o2) == ActionPropsCx(o, Ctx(o), ev, res, o2, Ctx(o2))
